@@ -23,6 +23,8 @@ func init() {
 			c.ruleTypeSwitchVDT("R-TYPESWITCH", babeDir, "dot/types", "BabeDigest")
 			c.min("R-TYPESWITCH", 3)
 			c.ruleBabeVerify()
+			c.ruleEpochArg()
+			c.min("R-EPOCHARG", 3)
 			c.min("R-AUTHIDX", 3)
 			c.min("R-SEAL", 4)
 			c.min("R-KINDGUARD", 3)
